@@ -1,3 +1,6 @@
+#[cfg(metrics_verif)]
+use metrics::__verif::arc::{Arc, Weak};
+#[cfg(not(metrics_verif))]
 use std::sync::{Arc, Weak};
 
 use metrics::{
@@ -68,6 +71,13 @@ impl<R: Recorder + Sync + Send + 'static> RecoverableRecorder<R> {
         let wrapped = WeakRecorder::from_arc(&self.handle);
 
         (wrapped, RecoveryHandle { handle: self.handle })
+    }
+
+    /// Verification seam: the wrapped recorder and its handle without touching the global recorder.
+    #[cfg(metrics_verif)]
+    #[doc(hidden)]
+    pub fn __verif_build(self) -> (impl Recorder + Send + Sync + 'static, RecoveryHandle<R>) {
+        self.build()
     }
 
     /// Installs the wrapped recorder globally, returning a handle to recover it.
